@@ -447,7 +447,10 @@ impl<'a> Engine<'a> {
                                 n.replay_json(Some(a)),
                             );
                         }
-                        StepOut::Next(n.child(Real::Sealed(r), n.model.clone(), a))
+                        let child = n.child(Real::Sealed(r), n.model.clone(), a);
+                        // C13: the rebuilt state registers exactly the stakes of the original
+                        self.check_stakes(&child, None);
+                        StepOut::Next(child)
                     }
                 }
             }
